@@ -3,6 +3,7 @@ import Proofs.Series2
 import Proofs.ExpReal
 import Proofs.TrigReal
 import Proofs.HypReal
+import Proofs.BladeReal
 
 /-! # C16 — series functions on blades with scalar square, scalars, and the scaling-and-squaring structure
 
@@ -94,5 +95,15 @@ theorem cos_sin_on_scalar_match_real (c : ℝ) (hc : |c| ≤ 8) :
 theorem cosh_sinh_on_scalar_match_real (c : ℝ) (hc : |c| ≤ 8) :
     |Real.cosh c - HypReal.coshTrunc 30 c| ≤ 1 / 1000000000000 ∧ |Real.sinh c - HypReal.sinhTrunc 30 c| ≤ 1 / 1000000000000 :=
   HypReal.cosh_sinh_within_tolerance c hc
+
+/-- **`exp` on a blade with negative square against the closed form `cos t + B·sin(t)/t`** (unscaled `2N`-term series, rational `t`, `B·B = −t²`):
+    `exp_{2N}(B) = C·1 + S·B` with `C = Σ_{j<N} (−1)^j t^{2j}/(2j)!`, `S = Σ_{j<N} (−1)^j t^{2j}/(2j+1)!`, and over the reals `|cos t − C| ≤ β`,
+    `|sin t − t·S| ≤ β`, `β = 2|t|^{2N}/(2N)!`, whenever `|t| ≤ N + 1/2` -/
+theorem exp_on_blade_matches_closed_form (B : A) (t : ℚ) (h : B * B = (-(t ^ 2)) • (1 : A)) (N : ℕ) (ht : |(t : ℝ)| / ((2 * N : ℕ).succ : ℝ) ≤ 1 / 2) :
+    expTrunc (2 * N) B = (∑ j ∈ range N, (-1) ^ j * t ^ (2 * j) / ((2 * j).factorial : ℚ)) • (1 : A)
+        + (∑ j ∈ range N, (-1) ^ j * t ^ (2 * j) / ((2 * j + 1).factorial : ℚ)) • B
+    ∧ |Real.cos (t : ℝ) - ((∑ j ∈ range N, (-1) ^ j * t ^ (2 * j) / ((2 * j).factorial : ℚ) : ℚ) : ℝ)| ≤ |(t : ℝ)| ^ (2 * N) / ((2 * N).factorial : ℝ) * 2
+    ∧ |Real.sin (t : ℝ) - (t : ℝ) * ((∑ j ∈ range N, (-1) ^ j * t ^ (2 * j) / ((2 * j + 1).factorial : ℚ) : ℚ) : ℝ)| ≤ |(t : ℝ)| ^ (2 * N) / ((2 * N).factorial : ℝ) * 2 :=
+  BladeReal.exp_on_blade_close B t h N ht
 
 end C16
